@@ -2,7 +2,7 @@
 from an import (Tracer, guard_at, strip, strip_casts, walk, fmt, callee, const_eval, Inter)
 from mir import loc_str
 from muxcommon import *
-import rules_c03, rules_c10
+import rules_c03, rules_c08, rules_c10
 
 EXPLANATION = (
     "(R1) requester: the BindRequested slot is inserted under a fresh non-zero id from the allocator, the Bind "
@@ -56,6 +56,20 @@ def check(facts, rep, tier, cfg):
             else:
                 rep.bad("C15.R1", "bind-result-from-oneshot", where, "request_bind's result does not come from the slot's oneshot")
     rep.floor("C15.R1", "Bind emissions", n, 1)
+    # a request that cannot be queued / whose oneshot is dropped fails with Closed instead of waiting on a slot nobody resolves
+    k = 0
+    for root, b, t, mapped in rules_c08.closed_mapping_sites(facts, crate):
+        if not any(callee(tt) and callee(tt)["name"] == "new_bind" for _, tt in b.calls()):
+            continue
+        k += 1
+        w = "%s (%s)" % (loc_str(t["loc"]), b.path)
+        if mapped:
+            rep.ok("C15.R1", "bind-request-closed-mapping#%d" % k, w, "failure mapped to Error::Closed and returned")
+        else:
+            rep.bad("C15.R1", "bind-request-closed-mapping", w,
+                    "request_bind ignores that the Bind frame could not be queued (connection ended): the BindRequested slot it just "
+                    "inserted is never resolved, the call never returns and the flow id stays taken")
+    rep.floor("C15.R1", "fallible queue/oneshot operations in the bind requester", k, 2)
     sub = type(rep)(rep.prop, rep.tier, rep.config)
     rules_c10.check(facts, sub, tier, cfg)
     rep.paths += sub.paths
@@ -69,7 +83,6 @@ def check(facts, rep, tier, cfg):
         k = v["key"].split("/", 1)[1]
         if k in cells or (k.startswith("unmatched/") and "Bind" in k):
             rep.bad("C15.R1" if "BindRequested" in k else "C15.R2", k, v["where"], v["msg"])
-    import rules_c08
     sub8 = type(rep)(rep.prop, rep.tier, rep.config)
     rules_c08.check(facts, sub8, tier, cfg)
     for i in sub8.instances:
